@@ -27,6 +27,8 @@ type file struct {
 	Path    string `json:"path"`
 	Content string `json:"content"`
 	Missing bool   `json:"missing,omitempty"`
+	// Symlink: the input is a symbolic link to a file with this content outside the package (a linked input stands for the bytes behind it)
+	Symlink bool `json:"symlink,omitempty"`
 }
 
 type state struct {
@@ -129,6 +131,18 @@ func key(s state, algo string) (string, error) {
 		}
 		p := filepath.Join(pkgDir, f.Path)
 		os.MkdirAll(filepath.Dir(p), 0o755)
+		if f.Symlink {
+			behind := filepath.Join(root, ".behind-"+s.Pkg, f.Path)
+			os.MkdirAll(filepath.Dir(behind), 0o755)
+			os.Remove(behind)
+			if err := os.WriteFile(behind, []byte(f.Content), 0o644); err != nil {
+				return "", err
+			}
+			if err := os.Symlink(behind, p); err != nil {
+				return "", err
+			}
+			continue
+		}
 		if err := os.WriteFile(p, []byte(f.Content), 0o644); err != nil {
 			return "", err
 		}
@@ -292,6 +306,16 @@ func families(n int) []family {
 	add("boundary:file1 end|file2 start", func(l, r string) (state, bool) {
 		s := base()
 		s.Inputs = []file{{Path: "f1", Content: "x" + l}, {Path: "f2", Content: r + "y"}}
+		return s, true
+	})
+	add("boundary:file1 end|file2 start (both inputs are symbolic links)", func(l, r string) (state, bool) {
+		s := base()
+		s.Inputs = []file{{Path: "f1", Content: "x" + l, Symlink: true}, {Path: "f2", Content: r + "y", Symlink: true}}
+		return s, true
+	})
+	add("boundary:file1 end|file2 start (the first input is a symbolic link)", func(l, r string) (state, bool) {
+		s := base()
+		s.Inputs = []file{{Path: "f1", Content: "x" + l, Symlink: true}, {Path: "f2", Content: r + "y"}}
 		return s, true
 	})
 	add("boundary:os|arch", func(l, r string) (state, bool) {
